@@ -5,6 +5,12 @@ to exercise a particular support-model list / dual branch) and member(z) -> bool
 membership predicate written independently.  `check_catalogue(verts)` validates the predicates
 against the vertex lists exported by TLC (CatalogueSound): every vertex is a member, and for every
 integer direction the maximum over a fine lattice of members equals the maximum over the vertices.
+
+Conic / transcendental sets (ids 20..36): the membership predicate is a list of convex functions F[s]
+(member iff every f <= 0; sets with an equality live on the line z1 + z2 = 1).  Everything else is DERIVED
+from membership alone (never from rsome): dense inner / outer polygons for the float oracle
+(`dense(s)`), and the verification of the coarse integer polygons written as literals in spec/RoSets.tla
+(`check_sand`).  See the section "Sandwich sets" below for the argument why the outer test is sound.
 """
 import itertools
 
@@ -33,6 +39,26 @@ def builders():
         17: lambda z, u: [z[0] >= 1, z[0] <= 1, z[1] >= -1, z[1] <= 1],
         18: lambda z, u: [z[0] >= -3, z[0] <= -1, z[1] >= 1, z[1] <= 2],
         19: lambda z, u: [z >= 0, z.sum() <= 2],
+        37: lambda z, u: [z[0] >= 0, z[0] <= 1, z[1] >= -1, z[1] <= 1],   # sign-restricted component (Bounds, bound 0) + non-zero bounds
+        38: lambda z, u: [z[0] <= 0, z[0] >= -2, z[1] >= 1, z[1] <= 3],
+        # ---- conic / transcendental sets
+        20: lambda z, u: [rso.pnorm(z, 3) <= 2],                                   # power-cone tower (SOC)
+        21: lambda z, u: [rso.quad(z, np.array([[1, .5], [.5, 1]])) <= 1],          # rotated ellipse
+        22: lambda z, u: [abs(z) <= 1, rso.norm(z) <= 1.2],                         # box and 2-ball
+        23: lambda z, u: [z >= 0, z.sum() == 1, rso.kldiv(z, np.array([.5, .5]), 0.1)],   # KL ball on the simplex
+        24: lambda z, u: [rso.exp(z[0]) <= z[1], z[0] >= -1, z[1] <= 2],            # exp-cone piece + bounds
+        25: lambda z, u: [z >= 0, z.sum() == 1, rso.entropy(z) >= 0.5],             # entropy set
+        26: lambda z, u: [rso.exp(z) <= u, u.sum() <= 3, z >= -1],                  # lifted exp set
+        27: lambda z, u: [rso.power(z[0], 2) <= z[1], z[1] <= 2],                   # parabola region
+        28: lambda z, u: [rso.quad(z, np.diag([.25, 1.])) <= 1],                    # axis-aligned ellipse (exact in TLC)
+        29: lambda z, u: [rso.pnorm(z, 1.5) <= 2],                                  # p < 2, float degree: exp cones
+        30: lambda z, u: [rso.softplus(z[0]) <= z[1], z[1] <= 2, z[0] >= -2],       # softplus
+        31: lambda z, u: [rso.log(z[1]) >= z[0], z[0] >= -1, z[1] <= 2],            # the set of 24 written with log
+        32: lambda z, u: [rso.pnorm(z, (3, 2)) <= 2],                               # the set of 29, rational degree: SOC tower
+        33: lambda z, u: [rso.norm(z) <= 1.5, z.sum() == 1],                        # 2-ball and an equality (a chord)
+        34: lambda z, u: [rso.exp(z[0]) <= z[1], z[0] + z[1] == 1, z[0] >= -1],     # exp piece and an equality: segment (-1,2)-(0,1) EXACTLY
+        35: lambda z, u: [rso.gmean(z) >= 1, z <= 2],                               # hyperbola region z1 z2 >= 1
+        36: lambda z, u: [rso.norm(z - np.array([1., 0.])) <= 1],                   # shifted ball (exact in TLC)
     }
 
 
@@ -57,15 +83,26 @@ MEMBERS = {
     17: lambda z: abs(z[0] - 1) <= E and -1 - E <= z[1] <= 1 + E,
     18: lambda z: -3 - E <= z[0] <= -1 + E and 1 - E <= z[1] <= 2 + E,
     19: lambda z: np.all(z >= -E) and z.sum() <= 2 + E,
+    34: lambda z: abs(z.sum() - 1) <= E and np.exp(z[0]) <= z[1] + E and z[0] >= -1 - E,
+    37: lambda z: -E <= z[0] <= 1 + E and -1 - E <= z[1] <= 1 + E,
+    38: lambda z: -2 - E <= z[0] <= E and 1 - E <= z[1] <= 3 + E,
 }
 
-NEEDS_U = {12}
+NEEDS_U = {12, 26}
 BALLS = {13: 1.0, 14: 2.0}
 CONIC = {13, 14, 15}          # need a second-order-cone capable solver
 
 
-def check_catalogue(verts, ball_r2):
-    """verts: {set id: [[z1, z2], ...]} from TLC. Raises AssertionError on a catalogue mistake."""
+def check_catalogue(verts, ball_r2, inner=None, outer=None, quadrics=None):
+    """verts: {set id: [[z1, z2], ...]} from TLC. Raises AssertionError on a catalogue mistake.
+    inner / outer: the integer polygons of the sandwich sets (see check_sand); quadrics: {set id: dict(c=, w=)}
+    the centre and squared semi-axes TLC uses for the sets it decides exactly in squares (see check_quadrics).
+    Returns {set id: sandwich gap}."""
+    gaps = {}
+    if inner or outer:
+        gaps = check_sand(inner or {}, outer or {})
+    if quadrics:
+        check_quadrics(quadrics)
     lattice = [np.array([a / 4.0, b / 4.0]) for a in range(-14, 15) for b in range(-14, 15)]
     dirs = [np.array(d, dtype=float) for d in itertools.product(range(-2, 3), repeat=2)]
     for s, vs in verts.items():
@@ -83,4 +120,297 @@ def check_catalogue(verts, ball_r2):
             mv = max(float(d @ v) for v in V)
             mp = max(float(d @ p) for p in pts)
             assert abs(mv - mp) <= 1e-9, 'set %d direction %s: vertices %g, lattice members %g' % (s, d, mv, mp)
+    return gaps
+
+
+def check_quadrics(quadrics):
+    """TLC decides max g0 + g.z over {(z-c)' diag(1/w) (z-c) <= 1} as g0 + g.c + sqrt(w1 g1^2 + w2 g2^2): the points
+    c + (sqrt(w1) cos t, sqrt(w2) sin t) must be THE boundary of the catalogue's set."""
+    th = 2.0 * np.pi * np.arange(720) / 720
+    for s, q in quadrics.items():
+        s = int(s)
+        assert s in EXACT_QUADRICS, 'set %d is not an exact quadric of the catalogue' % s
+        c = np.array(q['c'], dtype=float)
+        assert tuple(c) == tuple(float(v) for v in CENTRE[s]), 'set %d: centre %s' % (s, c)
+        R = np.stack([np.sqrt(q['w'][0]) * np.cos(th), np.sqrt(q['w'][1]) * np.sin(th)], axis=1)
+        Pi = c + (1 - 1e-7) * R
+        Po = c + (1 + 1e-7) * R
+        assert inside(s, Pi[:, 0], Pi[:, 1]).all() and not inside(s, Po[:, 0], Po[:, 1]).any(), 'set %d: quadric %s is not the set' % (s, q)
     return True
+
+
+# =====================================================================================================
+# Sandwich sets: convex sets with a curved boundary (conic / transcendental H-representation)
+# =====================================================================================================
+# F[s]: convex functions of (a, b) = (z1, z2), vectorised over NumPy arrays; z is a member iff every f <= 0
+# (and z1 + z2 = 1 for the sets in ON_LINE).  Written from the mathematical definition of the set, not from
+# rsome.  A function returns nan/inf outside its domain (=> not a member).
+
+def _xlogx(a):
+    a = np.asarray(a, dtype=float)
+    return np.where(a > 0, a * np.log(np.where(a > 0, a, 1.0)), np.where(a == 0, 0.0, np.inf))
+
+
+def _log(b):
+    b = np.asarray(b, dtype=float)
+    return np.where(b > 0, np.log(np.where(b > 0, b, 1.0)), -np.inf)
+
+
+F = {
+    13: [lambda a, b: a * a + b * b - 1.0],
+    14: [lambda a, b: a * a + b * b - 4.0],
+    20: [lambda a, b: np.abs(a) ** 3 + np.abs(b) ** 3 - 8.0],
+    21: [lambda a, b: a * a + a * b + b * b - 1.0],
+    22: [lambda a, b: np.abs(a) - 1.0, lambda a, b: np.abs(b) - 1.0, lambda a, b: a * a + b * b - 1.44],
+    23: [lambda a, b: -a, lambda a, b: -b,
+         lambda a, b: _xlogx(a) + _xlogx(b) + (a + b) * np.log(2.0) - 0.1],       # sum z log(z / .5) <= .1
+    24: [lambda a, b: np.exp(a) - b, lambda a, b: -1.0 - a, lambda a, b: b - 2.0],
+    25: [lambda a, b: -a, lambda a, b: -b, lambda a, b: 0.5 + _xlogx(a) + _xlogx(b)],   # -sum z log z >= .5
+    26: [lambda a, b: np.exp(a) + np.exp(b) - 3.0, lambda a, b: -1.0 - a, lambda a, b: -1.0 - b],
+    27: [lambda a, b: a * a - b, lambda a, b: b - 2.0],
+    28: [lambda a, b: a * a / 4.0 + b * b - 1.0],
+    29: [lambda a, b: np.abs(a) ** 1.5 + np.abs(b) ** 1.5 - 2.0 ** 1.5],
+    30: [lambda a, b: np.logaddexp(0.0, a) - b, lambda a, b: b - 2.0, lambda a, b: -2.0 - a],
+    31: [lambda a, b: a - _log(b), lambda a, b: -1.0 - a, lambda a, b: b - 2.0],
+    32: [lambda a, b: np.abs(a) ** 1.5 + np.abs(b) ** 1.5 - 2.0 ** 1.5],
+    33: [lambda a, b: a * a + b * b - 2.25],
+    35: [lambda a, b: -a, lambda a, b: -b, lambda a, b: 1.0 - np.sqrt(np.maximum(a, 0.0) * np.maximum(b, 0.0)),
+         lambda a, b: a - 2.0, lambda a, b: b - 2.0],
+    36: [lambda a, b: (a - 1.0) ** 2 + b * b - 1.0],
+}
+ON_LINE = {23, 25, 33}                       # sets inside the line z1 + z2 = 1 (segments)
+CENTRE = {13: (0, 0), 14: (0, 0), 20: (0, 0), 21: (0, 0), 22: (0, 0), 23: (.5, .5), 24: (-.3, 1.4), 25: (.5, .5),
+          26: (0, 0), 27: (0, 1), 28: (0, 0), 29: (0, 0), 30: (-.5, 1.3), 31: (-.3, 1.4), 32: (0, 0), 33: (.5, .5),
+          35: (1.5, 1.5), 36: (1, 0)}     # a point well inside each set (relative interior for segments)
+
+SAND = {20, 21, 22, 23, 24, 25, 26, 27, 29, 30, 31, 32, 33, 35}   # kind "sand" in RoSem.tla (RoSets.tla literals)
+EXACT_QUADRICS = {13, 14, 28, 36}            # kind "ball": decided exactly by TLC in squares
+NEW_SETS = sorted(SAND | {28, 34, 36})
+NEEDS_EXP = {23, 24, 25, 26, 29, 30, 31, 34}  # exponential cones: ECOS only, continuous decisions only
+NEEDS_SOC = {13, 14, 15, 20, 21, 22, 27, 28, 32, 33, 35, 36}   # second-order cones: ECOS or Gurobi
+IPCONE_POW2 = {27, 35}                       # integer power cone, degrees summing to a power of two (see replay_rosem.build)
+DENSE_SETS = SAND | EXACT_QUADRICS           # sets whose float oracle uses dense(s)
+ZD = 1000                                    # scale of the integer polygons of RoSets.tla
+DENSE_N = 360                                # uniform rays of the dense polygons (refined where the boundary bends)
+DENSE_CAP = 1e-5                             # target height of the outer caps
+TMAX = 8.0                                   # every set lies within distance TMAX of its centre
+
+
+def _fmember(s):
+    fs = F[s]
+    line = s in ON_LINE
+
+    def mem(z):
+        z = np.asarray(z, dtype=float)
+        with np.errstate(all='ignore'):
+            ok = all(bool(f(z[0], z[1]) <= E) for f in fs)
+        return ok and (not line or abs(z[0] + z[1] - 1.0) <= E)
+    return mem
+
+
+for _s in F:
+    if _s not in MEMBERS:
+        MEMBERS[_s] = _fmember(_s)
+
+
+def inside(s, A, B, slack=0.0):
+    """Vectorised membership (of the inequality part): every f(A, B) <= slack."""
+    A = np.asarray(A, dtype=float)
+    B = np.asarray(B, dtype=float)
+    ok = np.ones(A.shape, dtype=bool)
+    with np.errstate(all='ignore'):
+        for f in F[s]:
+            ok &= (f(A, B) <= slack)
+    return ok
+
+
+def _bisect(s, c, D, slack):
+    """Boundary of S along the rays c + t*D[k], t in [0, TMAX]: returns (t_in, t_out), |t_out - t_in| ~ 1e-15,
+    c + t_in*D[k] a member, c + t_out*D[k] not a member (the members on a ray from a member are an interval)."""
+    n = D.shape[0]
+    lo = np.zeros(n)
+    hi = np.full(n, TMAX)
+    assert bool(inside(s, np.array(c[0]), np.array(c[1]), -1e-3)), 'centre of set %d is not well inside' % s
+    assert not inside(s, c[0] + TMAX * D[:, 0], c[1] + TMAX * D[:, 1], slack).any(), 'set %d not within TMAX' % s
+    for _ in range(70):
+        mid = 0.5 * (lo + hi)
+        ins = inside(s, c[0] + mid * D[:, 0], c[1] + mid * D[:, 1], slack)
+        lo = np.where(ins, mid, lo)
+        hi = np.where(ins, hi, mid)
+    return lo, hi
+
+
+def boundary(s, n, phase=0.0, slack=0.0):
+    """Boundary points of a full-dimensional set in angular order (rays from the centre; n = number of uniform
+    rays or an increasing array of angles): (P_in, P_out) arrays (n, 2): members / non-members ~1e-15 apart."""
+    c = np.array(CENTRE[s], dtype=float)
+    th = phase + 2.0 * np.pi * np.arange(n) / n if np.isscalar(n) else np.asarray(n, dtype=float)
+    D = np.stack([np.cos(th), np.sin(th)], axis=1)
+    lo, hi = _bisect(s, c, D, slack)
+    return c + lo[:, None] * D, c + hi[:, None] * D
+
+
+def _cap_heights(P, Q):
+    w = np.roll(P, -1, axis=0) - P
+    return np.abs((Q - P)[:, 0] * w[:, 1] - (Q - P)[:, 1] * w[:, 0]) / np.maximum(np.hypot(w[:, 0], w[:, 1]), 1e-300)
+
+
+def segment(s, slack=0.0):
+    """Sets on the line z1 + z2 = 1: ((a_in_lo, a_in_hi), (a_out_lo, a_out_hi)) for the z1-coordinate."""
+    c = np.array(CENTRE[s], dtype=float)
+    assert abs(c.sum() - 1.0) < 1e-15
+    D = np.array([[1.0, -1.0], [-1.0, 1.0]])
+    lo, hi = _bisect(s, c, D, slack)
+    return (c[0] - lo[1], c[0] + lo[0]), (c[0] - hi[1], c[0] + hi[0])
+
+
+def wedge_points(P):
+    """Outer wedge vertices.  P: boundary points of a convex set S in angular order around an interior point c.
+
+    Claim: the part of S in the sector between the rays through P[k] and P[k+1] lies inside the line through
+    P[k-1], P[k] and inside the line through P[k+2], P[k+1].  (If a member s of that sector were strictly outside
+    the line P[k-1]P[k], the segment P[k-1]..s, contained in S, would cross the ray of P[k] strictly beyond P[k], so
+    P[k] would be strictly between the interior point c and a member: an interior point, not a boundary point.)
+    Hence S is contained in conv(P + Q), Q[k] = the intersection of the two lines (the apex of the cap over the
+    chord P[k]P[k+1]); for (numerically) parallel lines the cap is flat and the chord midpoint stands for it."""
+    Pm1 = np.roll(P, 1, axis=0)
+    Pp1 = np.roll(P, -1, axis=0)
+    Pp2 = np.roll(P, -2, axis=0)
+    d1 = P - Pm1
+    d2 = Pp1 - Pp2
+    cross = d1[:, 0] * d2[:, 1] - d1[:, 1] * d2[:, 0]
+    w = Pp1 - P
+    n1 = np.hypot(d1[:, 0], d1[:, 1])
+    n2 = np.hypot(d2[:, 0], d2[:, 1])
+    flat = np.abs(cross) <= 1e-7 * n1 * n2
+    sc = np.where(flat, 0.0, (w[:, 0] * d2[:, 1] - w[:, 1] * d2[:, 0]) / np.where(flat, 1.0, cross))
+    Q = np.where(flat[:, None], 0.5 * (P + Pp1), P + sc[:, None] * d1)
+    # sanity of the construction: the apex is beyond P[k] along d1 (s >= 0) and close to the chord
+    chord = np.hypot(w[:, 0], w[:, 1])
+    assert (sc * n1 >= -1e-9).all() and (np.hypot(*(Q - P).T) <= 4.0 * chord + 1e-9).all(), 'wedge construction failed'
+    return Q
+
+
+def _hull(points):
+    from scipy.spatial import ConvexHull
+    pts = np.asarray(points, dtype=float)
+    h = ConvexHull(pts)
+    return pts[h.vertices], h.equations
+
+
+_dense_cache = {}
+
+
+def dense(s):
+    """Dense polygons of set s from membership alone: dict(inner=[[z1, z2], ...] members of S, outer=[...] with
+    S inside conv(outer), gap = largest support-function difference over 720 directions)."""
+    if s in _dense_cache:
+        return _dense_cache[s]
+    if s in ON_LINE:
+        (ilo, ihi), (olo, ohi) = segment(s)
+        inner = [[ilo, 1.0 - ilo], [ihi, 1.0 - ihi]]
+        outer = [[olo - 1e-12, 1.0 - olo + 1e-12], [ohi + 1e-12, 1.0 - ohi - 1e-12]]
+    else:
+        # rays: uniform, then sectors whose cap (outer apex over the chord) is high are subdivided
+        th = 2.0 * np.pi * np.arange(DENSE_N) / DENSE_N
+        for _ in range(4):
+            Pin, Pout = boundary(s, th)
+            Q = wedge_points(Pout)
+            h = _cap_heights(Pout, Q)
+            parts = np.clip(np.ceil(np.sqrt(h / DENSE_CAP)), 1, 6).astype(int)
+            if parts.max() == 1 or len(th) > 6 * DENSE_N:
+                break
+            nxt = np.append(th[1:], th[0] + 2.0 * np.pi)
+            th = np.concatenate([t0 + (t1 - t0) * np.arange(m) / m for t0, t1, m in zip(th, nxt, parts)])
+        c = np.array(CENTRE[s], dtype=float)
+        # corners: where the cap is not flat, add the boundary point under its apex to the inner polygon
+        idx = np.argsort(-h)[:64]
+        D = Q[idx] - c
+        r = np.hypot(D[:, 0], D[:, 1])
+        lo, hi = _bisect(s, c, D / r[:, None], 0.0)
+        extra = c + np.minimum(lo, r)[:, None] * (D / r[:, None])
+        inner, _ = _hull(np.vstack([Pin, extra]))
+        outer, _ = _hull(np.vstack([Pout, Q]))
+        assert inside(s, inner[:, 0], inner[:, 1], 0.0).all()
+        inner, outer = inner.tolist(), outer.tolist()
+    th = 2.0 * np.pi * np.arange(720) / 720
+    Dd = np.stack([np.cos(th), np.sin(th)])
+    gap = float(np.max(np.max(np.array(outer) @ Dd, axis=0) - np.max(np.array(inner) @ Dd, axis=0)))
+    _dense_cache[s] = dict(inner=inner, outer=outer, gap=gap)
+    return _dense_cache[s]
+
+
+def _in_hull_margin(V, pts):
+    """min over pts of the signed distance to the complement of conv(V) (positive = inside); V may be a segment."""
+    V = np.asarray(V, dtype=float)
+    pts = np.asarray(pts, dtype=float)
+    U = np.unique(V, axis=0)
+    d = U[-1] - U[0]
+    if len(U) == 2 or np.allclose((U - U[0]) @ np.array([-d[1], d[0]]), 0.0, atol=1e-12):
+        # degenerate: all vertices on one line
+        a = U[np.argmin(U @ d)]
+        b = U[np.argmax(U @ d)]
+        L = float(np.hypot(*(b - a)))
+        u = (b - a) / L
+        t = (pts - a) @ u
+        off = float(np.max(np.abs((pts - a) @ np.array([-u[1], u[0]]))))
+        if off > 1e-9:
+            return -off
+        return float(min(np.min(t), np.min(L - t)))
+    _, eq = _hull(U)
+    return float(-np.max(eq[:, :2] @ pts.T + eq[:, 2:3]))
+
+
+def check_sand(vin, vout, zd=ZD):
+    """Verification of the coarse integer polygons exported by TLC (RoSets.tla literals), run in EVERY run.
+    vin / vout: {set id: [[Z1, Z2], ...]} integers scaled by zd.  Raises AssertionError on a catalogue mistake.
+    Returns {set id: gap} (largest support-function difference outer - inner over 64 directions, unscaled)."""
+    gaps = {}
+    th = 2.0 * np.pi * np.arange(64) / 64
+    Dd = np.stack([np.cos(th), np.sin(th)])
+    for s in sorted(set(int(k) for k in vin) | set(int(k) for k in vout)):
+        assert s in SAND, 'set %d has polygons in the spec but is not a sandwich set of the catalogue' % s
+        I = vin.get(str(s), vin.get(s))
+        O = vout.get(str(s), vout.get(s))
+        assert I and O, 'set %d: empty inner or outer polygon' % s
+        for v in list(I) + list(O):
+            assert all(isinstance(x, int) for x in v) and max(abs(x) for x in v) <= 3 * zd, 'set %d: vertex %s out of range' % (s, v)
+        I = np.array(I, dtype=float) / zd
+        O = np.array(O, dtype=float) / zd
+        # (1) every inner vertex is a member with margin (and exactly on the line for segments)
+        assert inside(s, I[:, 0], I[:, 1], -1e-7).all(), 'set %d: an inner vertex is not a member (margin 1e-7)' % s
+        if s in ON_LINE:
+            for v in list(vin.get(str(s), vin.get(s))) + list(vout.get(str(s), vout.get(s))):
+                assert v[0] + v[1] == zd, 'set %d: vertex %s is not on the line z1 + z2 = 1' % (s, v)
+            # (2) the segment (bisection on the line, >= 2000 sample points) lies inside the outer segment
+            (_, _), (olo, ohi) = segment(s, slack=E)
+            a = np.linspace(olo, ohi, 2001)
+            pts = np.stack([a, 1.0 - a], axis=1)
+        else:
+            # (2) dense boundary sample (non-member side of the bisection, 2048 rays not aligned with the rays of
+            #     the generator) AND the wedge apexes over every chord (which cover the corners between two rays)
+            _, Pout = boundary(s, 2048, phase=0.0123, slack=E)
+            pts = np.vstack([Pout, wedge_points(Pout)])
+        m = _in_hull_margin(O, pts)
+        assert m >= 1e-7, 'set %d: a boundary point of S is outside conv(Outer) (margin %.3g)' % (s, m)
+        gaps[s] = float(np.max(np.max(O @ Dd, axis=0) - np.max(I @ Dd, axis=0)))
+        assert gaps[s] <= 0.08, 'set %d: sandwich gap %.3g too wide to be useful' % (s, gaps[s])
+    return gaps
+
+
+def check_dense(s):
+    """Self-check of dense(s) with an independent sample (other rays): inner members, outer contains S."""
+    d = dense(s)
+    I = np.array(d['inner'])
+    O = np.array(d['outer'])
+    assert inside(s, I[:, 0], I[:, 1], E).all(), 'dense inner vertex of set %d not a member' % s
+    if s in ON_LINE:
+        assert np.allclose(I.sum(axis=1), 1.0, atol=1e-12) and np.allclose(O.sum(axis=1), 1.0, atol=1e-12)
+        (_, _), (olo, ohi) = segment(s)
+        assert O[:, 0].min() <= olo and O[:, 0].max() >= ohi
+    else:
+        Pin, _ = boundary(s, 3000, phase=0.0321)
+        m = _in_hull_margin(O, Pin)
+        assert m >= -1e-12, 'dense outer polygon of set %d does not contain a member of S (%.3g)' % (s, m)
+    assert d['gap'] <= 5e-5, 'dense polygons of set %d: gap %.3g' % (s, d['gap'])
+    return d['gap']
